@@ -95,6 +95,11 @@ PROPS = {
         profiles=dict(quick=[('conc', 6, 1), ('life', 15, 1)], thorough=[('conc', 24, 4), ('life', 150, 2)]),
         explanation='lemma in a model of Go slices (append on a len=cap slice never writes the shared backing array) + regenerated facts (no package-level variable written outside init; which package slices are append prefixes) + run-time check len=cap of those slices + N conversation pairs on goroutines under the race detector, each transcript compared with the same pair run alone; the Go memory model itself is not formalised, hence level other',
         assumptions=['data races are detected dynamically by the Go race detector on the schedules that occur', 'each pair uses its own copy of the long-term key object']),
+    'C04': dict(
+        module='Props.C04', level='proof',
+        profiles=dict(quick=[('sched', 12, 1), ('schedx', 60, 1)], thorough=[('sched', 80, 8), ('schedx', 4000, 1), ('frag', 40, 2)]),
+        explanation='inductive invariant of the two-party system over ALL interleavings of sends and deliveries, any number in flight, any number of rotations (Props.C04: every delivery accepted, exactly once, in order, same keys on both sides, AES-CTR involution); tied to the code by whole-session differential runs; Go oracle: per-side expected-text queues over random long schedules (fragmentation, heartbeats, SMP, extra key, both versions) and exhaustive interleavings to a bounded depth',
+        assumptions=['DH commutativity and pairwise distinct public keys (hypotheses of c04_key_agreement)', 'key ids < 2^32, counters < 2^64', 'texts without NUL (the guard of the property itself)']),
 }
 
 # properties not claimed yet (kept current; each is moved into PROPS when its check exists)
